@@ -276,19 +276,29 @@ def expand_item(repo, relfile, selector, body, tmpl_name, tmpl_line, opts):
 
 
 def _anchor(src, m, fp, text, mode, selector):
+    """text: start of a statement (whitespace-normalised, may span lines), optionally
+    prefixed by `<n>:` to pick the n-th matching line."""
     if fp is None:
         raise LostAnchor("%s: anchor on non-fn" % selector)
+    nth = None
+    mm = re.match(r"^(\d+):(.*)$", text)
+    if mm:
+        nth, text = int(mm.group(1)), mm.group(2)
     want = _norm(text)
     b0, b1 = fp.body_open + 1, fp.body_close
     hits = []
     off = b0
     for line in src[b0:b1].split("\n"):
-        if _norm(line).startswith(want) and want:
-            first = off + (len(line) - len(line.lstrip()))
-            # the anchor must be code, not a comment
-            if not m[first].isspace():
+        first = off + (len(line) - len(line.lstrip()))
+        if want and line.strip() and not m[first].isspace():
+            window = _norm(src[first:min(b1, first + 4 * len(want) + 200)])
+            if window.startswith(want):
                 hits.append((off, first))
         off += len(line) + 1
+    if nth is not None:
+        if nth < 1 or nth > len(hits):
+            raise LostAnchor("%s: anchor `%s` has %d matches, wanted #%d" % (selector, text, len(hits), nth))
+        hits = [hits[nth - 1]]
     if len(hits) != 1:
         raise LostAnchor("%s: anchor `%s` matches %d lines" % (selector, text, len(hits)))
     line_start, first = hits[0]
